@@ -239,6 +239,8 @@ def run(ctx):
 
     def rtree(depth):
         rows = rnd.sample(words0 if depth == 0 else words1, rnd.randint(1, 3))
+        if ["else"] in rows:           # an `else` closes the if-chain it follows: it comes last among its siblings
+            rows = [r for r in rows if r != ["else"]] + [["else"]]
         out = []
         for rw in rows:
             blk = rnd.random() < 0.5 and depth < 3
